@@ -222,6 +222,11 @@ func areaMerge(r *Rng, n int, dir string) (*AreaOut, error) {
 			if ov, ok := logical(old); ok && o.Kind == "bytes" {
 				out.OracleN++
 				rv, rok := logical(o.Bytes)
+				// C04: a deletion with a higher timestamp removes the key whatever older version is stored,
+				// also when the marker is older than the stale-marker cutoff (the cutoff only concerns ABSENT keys)
+				if e.Flags&1 == 1 && c.Fmt >= 2 && e.TS != 0 && e.TS > ov.TS && (!rok || !rv.Del) {
+					out.Oracle = append(out.Oracle, OracleFailure{"C04", "deletion-propagates", fmt.Sprintf("stored version @%d, incoming deletion @%d (cutoff %d): the key is still live after the merge", ov.TS, e.TS, c.Cutoff), map[string]any{"cfg": c, "old": hexs(old), "entry": e, "result": hexs(o.Bytes)}})
+				}
 				switch {
 				case !rok:
 					out.Oracle = append(out.Oracle, OracleFailure{"C02", "never-backwards", "merge into a present key removed it or wrote an unparsable value", map[string]any{"cfg": c, "old": hexs(old), "entry": e, "result": hexs(o.Bytes)}})
